@@ -15,6 +15,16 @@ pub enum Body {
     Loop,
     /// simulated external program (xseq / xcat / xhead / xexit): the real spawn path
     External,
+    /// Emit only: one `printf` of the whole payload (`printf 'A%sxx\n' {1..n}`)
+    Printf,
+    /// Emit only: the payload collected by a command substitution inside the stage, then one
+    /// `echo "$v"`
+    EchoVar,
+    /// Copy only: `mapfile -t m; printf '%s\n' "${m[@]}"`
+    Mapfile,
+    /// Emit only, joined to the next stage with `|&`: every line is followed by a line on
+    /// standard error
+    LoopBoth,
 }
 
 #[derive(Clone, Debug, Serialize, Deserialize, PartialEq)]
@@ -133,6 +143,22 @@ fn render_inner(st: &Stage, idx: usize) -> String {
             }
         }
         (Role::Count, Body::External) => format!("c{idx}=0; while IFS= read -r {v}; do c{idx}=$((c{idx}+1)); done; echo \"count=$c{idx}\""),
+        (Role::Emit { n, tag, pad }, Body::Printf) => {
+            let padstr = "x".repeat(*pad as usize);
+            if *n == 0 { ":".to_string() } else { format!("printf '{tag}%s{padstr}\\n' {{1..{n}}}") }
+        }
+        (Role::Emit { n, tag, pad }, Body::EchoVar) => {
+            format!("ev{idx}=$(simseq {n} {tag} {pad}); if [ -n \"$ev{idx}\" ]; then echo \"$ev{idx}\"; fi")
+        }
+        (Role::Emit { n, tag, pad }, Body::LoopBoth) => {
+            let padstr = "x".repeat(*pad as usize);
+            format!("i{idx}=0; while [ $i{idx} -lt {n} ]; do i{idx}=$((i{idx}+1)); echo \"{tag}${{i{idx}}}{padstr}\"; echo \"E${{i{idx}}}\" >&2; done")
+        }
+        (Role::Emit { n, tag, pad }, Body::Mapfile) => format!("simseq {n} {tag} {pad}"),
+        (Role::Copy { .. }, Body::Mapfile) => {
+            format!("mapfile -t m{idx}; if [ ${{#m{idx}[@]}} -gt 0 ]; then printf '%s\\n' \"${{m{idx}[@]}}\"; fi")
+        }
+        (Role::Copy { buf }, Body::Printf | Body::EchoVar | Body::LoopBoth) => format!("simcat {buf}"),
         (Role::Emit { n, tag, pad }, Body::Loop) => {
             let padstr = "x".repeat(*pad as usize);
             format!("i{idx}=0; while [ $i{idx} -lt {n} ]; do i{idx}=$((i{idx}+1)); echo \"{tag}${{i{idx}}}{padstr}\"; done")
@@ -141,7 +167,7 @@ fn render_inner(st: &Stage, idx: usize) -> String {
         (Role::Copy { buf }, Body::Builtin) => format!("simcat {buf}"),
         (Role::Copy { .. }, Body::Loop) => format!("while IFS= read -r {v}; do echo \"${v}\"; done"),
         (Role::Tag { prefix }, _) => format!("while IFS= read -r {v}; do echo \"{prefix}${v}\"; done"),
-        (Role::Head { k, buf }, Body::Builtin) => format!("simhead {k} {buf}"),
+        (Role::Head { k, buf }, Body::Builtin | Body::Printf | Body::EchoVar | Body::Mapfile | Body::LoopBoth) => format!("simhead {k} {buf}"),
         (Role::Head { k, .. }, Body::Loop) => format!(
             "n{idx}=0; while IFS= read -r {v}; do echo \"${v}\"; n{idx}=$((n{idx}+1)); if [ $n{idx} -ge {k} ]; then break; fi; done"
         ),
@@ -183,9 +209,10 @@ fn is_compound_text(st: &Stage) -> bool {
     // whether the rendered inner text is a compound command / list (not a single simple command)
     !matches!(
         (&st.role, &st.body),
-        (Role::Emit { .. }, Body::Builtin | Body::External)
-            | (Role::Copy { .. }, Body::Builtin | Body::External)
-            | (Role::Head { .. }, Body::Builtin | Body::External)
+        (Role::Emit { .. }, Body::Builtin | Body::External | Body::Printf)
+            | (Role::Copy { .. }, Body::Builtin | Body::External | Body::Printf | Body::EchoVar | Body::LoopBoth)
+            | (Role::Head { .. }, Body::Builtin | Body::External | Body::Printf | Body::EchoVar | Body::Mapfile | Body::LoopBoth)
+            | (Role::Emit { .. }, Body::Mapfile)
             | (Role::Exit { .. }, _)
     )
 }
@@ -195,6 +222,10 @@ pub fn runs_inline(st: &Stage) -> bool {
     st.wrapper != Wrapper::None || is_compound_text(st)
 }
 
+fn both_joined(st: &Stage) -> bool {
+    st.body == Body::LoopBoth && matches!(st.role, Role::Emit { .. })
+}
+
 pub fn render(case: &Case) -> String {
     let mut defs = String::new();
     let mut parts = vec![];
@@ -202,7 +233,7 @@ pub fn render(case: &Case) -> String {
         let inner = render_inner(st, i);
         let text = match st.wrapper {
             Wrapper::None => {
-                if is_compound_text(st) && !matches!(st.role, Role::Tag { .. } | Role::Copy { .. } | Role::EmitForever) {
+                if is_compound_text(st) && (st.body == Body::Mapfile || !matches!(st.role, Role::Tag { .. } | Role::Copy { .. } | Role::EmitForever)) {
                     // a list needs grouping to be one stage
                     format!("{{ {inner}; }}")
                 } else {
@@ -222,7 +253,13 @@ pub fn render(case: &Case) -> String {
         };
         parts.push(text);
     }
-    let pipeline = parts.join(" | ");
+    let mut pipeline = String::new();
+    for (i, part) in parts.iter().enumerate() {
+        if i > 0 {
+            pipeline.push_str(if both_joined(&case.stages[i - 1]) { " |& " } else { " | " });
+        }
+        pipeline.push_str(part);
+    }
     let mut s = String::new();
     if case.pipefail {
         s.push_str("set -o pipefail\n");
@@ -301,13 +338,16 @@ pub fn model(case: &Case) -> Model {
     let mut endless_input = false;
     #[allow(unused_assignments)]
     let mut raw_tail = false;
-    for st in &case.stages {
+    for (sti, st) in case.stages.iter().enumerate() {
         let incoming = lines.len();
         let mut st_early = false;
         match &st.role {
             Role::Emit { n, tag, pad } => {
                 let padstr = "x".repeat(*pad as usize);
                 lines = (1..=*n).map(|i| format!("{tag}{i}{padstr}")).collect();
+                if both_joined(st) && sti + 1 < case.stages.len() {
+                    lines = (1..=*n).flat_map(|i| [format!("{tag}{i}{padstr}"), format!("E{i}")]).collect();
+                }
                 allowed.push(vec![0]);
             }
             Role::EmitForever => {
@@ -566,7 +606,13 @@ impl C11 {
             } else if class == "real-size" {
                 (if rng.below(2) == 0 { Body::Builtin } else { Body::External }, gen_wrapper(&mut rng))
             } else {
-                (gen_body(&mut rng), gen_wrapper(&mut rng))
+                let b = match rng.below(9) {
+                    0 => Body::Printf,
+                    1 => Body::EchoVar,
+                    2 if nstages >= 2 => Body::LoopBoth,
+                    _ => gen_body(&mut rng),
+                };
+                (b, gen_wrapper(&mut rng))
             };
             stages.push(Stage { body, wrapper, role: Role::Emit { n, tag, pad } });
         }
@@ -620,6 +666,7 @@ impl C11 {
                     _ => Role::Copy { buf: 64 },
                 },
             };
+            let body = if matches!(role, Role::Copy { .. }) && class != "real-size" && class != "builtin-big" && class != "external-big" && rng.below(6) == 0 { Body::Mapfile } else { body };
             stages.push(Stage { body, wrapper, role });
         }
         // ReadThenCopy needs a compound wrapper
